@@ -116,7 +116,7 @@ namespace hist
         }
         bool unwind(int i) override
         {
-            this->cur().unwind(markers_[size_t(i)]);
+            do_unwind(markers_[size_t(i)]);
             for (size_t k = size_t(i) + 1; k < markers_.size() && stale_.size() < 8; ++k)
                 stale_.push_back(markers_[k]); // invalid from now on (used by C16 only)
             markers_.erase(markers_.begin() + i + 1, markers_.end());
@@ -132,7 +132,11 @@ namespace hist
         }
         void unwind_stale(size_t i) override
         {
-            this->cur().unwind(stale_[i]);
+            do_unwind(stale_[i]);
+        }
+        void set_unwind_mode(unsigned m) override
+        {
+            mode_ = m % 3;
         }
         int marker_cmp(int i, int j) override
         {
@@ -147,6 +151,18 @@ namespace hist
         }
 
     private:
+        void do_unwind(marker m)
+        {
+            if (mode_ == 0)
+                this->cur().unwind(m);
+            else
+            {
+                fm::memory_stack_raii_unwind<T> u(this->cur(), m);
+                if (mode_ == 2)
+                    u.unwind(); // the destructor then unwinds to the same place again (a no-op)
+            }
+        }
+        unsigned            mode_ = 0;
         size_t              block_size_;
         std::vector<marker> markers_, stale_;
     };
